@@ -6,7 +6,9 @@ namespace rs {
 class RunSim : public vf::Engine {
 public:
     const char* name() const { return "runsim"; }
-#if CPPUTEST_HAVE_EXCEPTIONS
+#if CPPUTEST_HAVE_EXCEPTIONS && !defined(__SANITIZE_ADDRESS__)
+    const char* variant() const { return "plain"; }
+#elif CPPUTEST_HAVE_EXCEPTIONS
     const char* variant() const { return "asan"; }
 #else
     const char* variant() const { return "noexc"; }
